@@ -33,6 +33,8 @@ class Chain:
         self.seeds = [rng.randbytes(32) for _ in range(n)]
         self.pks = [E.public_key(s) for s in self.seeds]
         self.sf = [{'sigfield1': b'hop %d' % i, 'sigfield2': rng.randbytes(8)} for i in range(n)]
+        if flags == '00' and n >= 3:
+            self.sf[1] = {'sigfield8': b'only the last sigfield %d' % n}      # a hop that signs sigfield8 alone
         self.rseeds = [rng.randbytes(32) for _ in range(n)]
         if isinstance(refunds, (set, frozenset, list, tuple)):
             hops = set(refunds)
